@@ -24,6 +24,9 @@ type Style struct {
 	AfterEnd        string // text after the END line (ignored by the standard)
 	Header          bool   // ;redcode first line
 	LongCommentPct  int    // chance that a comment is 4090..70000 bytes long
+	// ScatterDirectives: metadata and ;assert lines are not all written at the top: some follow a label that stands on
+	// a line of its own (between the label and its instruction), some stand between top-level items
+	ScatterDirectives bool
 }
 
 func (s *Style) pct(p int) bool { return p > 0 && s.R.Intn(100) < p }
@@ -131,6 +134,14 @@ func assertLine(s *Style, a Expr) string {
 func Render(p *Prog, s *Style) string {
 	var lines []string
 	emit := func(l string) { lines = append(lines, l) }
+	var queue []string // directive lines still to be written (ScatterDirectives)
+	depth := 0         // nesting depth of the FOR body being rendered (directives are only written at depth 0)
+	popDirective := func() {
+		if len(queue) > 0 && depth == 0 && s.R.Intn(2) == 0 {
+			emit(queue[0])
+			queue = queue[1:]
+		}
+	}
 	filler := func() {
 		if s.pct(s.BlankPct) {
 			emit(strings.Repeat(" ", s.R.Intn(3)))
@@ -193,6 +204,9 @@ func Render(p *Prog, s *Style) string {
 		for idx := 0; idx < len(items); idx++ {
 			it := items[idx]
 			filler()
+			if s.R != nil && len(queue) > 0 && depth == 0 && s.R.Intn(3) == 0 {
+				popDirective()
+			}
 			switch x := it.(type) {
 			case *Equ:
 				names := s.name(x.Name)
@@ -220,6 +234,7 @@ func Render(p *Prog, s *Style) string {
 				for _, a := range x.Asserts {
 					emit(indent + assertLine(s, a))
 				}
+				depth++
 				if len(x.Dead) > 0 && s.R.Intn(2) == 0 {
 					for _, l := range x.Dead {
 						emit(indent + l)
@@ -231,12 +246,14 @@ func Render(p *Prog, s *Style) string {
 						emit(indent + l)
 					}
 				}
+				depth--
 				emit(trail(indent + s.opt() + s.kw("rof")))
 			case *Instr:
 				line := indent
 				if len(x.Labels) > 0 && s.pct(s.OwnLinePct) {
 					for _, l := range x.Labels {
 						emit(indent + label(l))
+						popDirective()
 						if s.pct(s.BlankPct) {
 							emit("")
 						}
@@ -283,13 +300,21 @@ func Render(p *Prog, s *Style) string {
 	if len(meta) > 1 && s.R.Intn(2) == 0 && p.Name != "" {
 		meta = append(meta[1:], meta[0])
 	}
-	for _, l := range meta {
-		emit(l)
-	}
 	for _, a := range p.Asserts {
-		emit(assertLine(s, a))
+		meta = append(meta, assertLine(s, a))
+	}
+	if s.ScatterDirectives {
+		queue = meta
+	} else {
+		for _, l := range meta {
+			emit(l)
+		}
 	}
 	renderItems(items, "")
+	for _, l := range queue {
+		emit(l)
+	}
+	queue = nil
 	endLabels := ""
 	for _, l := range p.EndLabels {
 		endLabels += label(l) + s.gap()
